@@ -104,7 +104,7 @@ func linkApply(op string, raw json.RawMessage) interface{} {
 		}
 		at := []int{}
 		equal := true
-		deadline := time.After(1500 * time.Millisecond)
+		deadline := time.After(6 * time.Second)
 		grace := (<-chan time.Time)(nil)
 	collect:
 		for {
@@ -195,7 +195,7 @@ func pingApply(op string, raw json.RawMessage) interface{} {
 		go func() {
 			defer wg.Done()
 			for i := 0; i < a.Each; i++ {
-				ctx, c := context.WithTimeout(context.Background(), 2500*time.Millisecond)
+				ctx, c := context.WithTimeout(context.Background(), 8*time.Second)
 				_, from, err := s.Ping(ctx, "far", 0)
 				c()
 				mu.Lock()
